@@ -536,6 +536,10 @@ pub fn check_partial(ctx: &DefCtx, s: &[u8], k: usize, full: &RunOut, full_ref: 
         return;
     }
     stats.splits += 1;
+    if !part.post_none_ok {
+        vs.push(v("C07", "repoll-after-none", format!("split {k}: polling the partial lexer again after None (no new input) returned an item or moved the span")));
+        vs.push(v("C20", "repoll-after-none", format!("split {k}: after None the partial lexer did not restart at the end of the item produced last")));
+    }
     let n_p = part.items.len();
     // (1) leading run of the one-shot items
     let lead_ok = n_p <= full.items.len() && part.items[..] == full.items[..n_p];
